@@ -62,6 +62,14 @@ def expression_shapes(tier: str, seed: int) -> list:
 		paren.append(('paren', f'a {o1} (b {o2} d)'))
 	triples = [('triple', f'a {o1} b {o2} d {o3} a') for o1, o2, o3 in itertools.product(ALLBIN, repeat=3)]
 	mixed = [('mixed', f'{u}(a {o1} b) {o2} d') for u in ['not ', '-', '~'] for o1, o2 in itertools.product(ALLBIN, repeat=2)]
+	nested = []
+	for o1, o2, o3 in itertools.product(ARITH[:3] + BITS + CMP[:2], repeat=3):
+		if (o3 in BITS and o2 in CMP) or (o1 in BITS and o3 in CMP):
+			continue  # bitwise operators on bool operands are refused by tranp's typing (OperationNotAllowed): outside the subset
+		nested.append(('nested-paren', f'a {o1} ((a {o2} b) {o3} (d {o2} a))'))
+		nested.append(('nested-paren', f'((a {o2} b) {o3} (d {o2} a)) {o1} b'))
+	nested += [('nested-paren', e) for e in ['not ((a > b) and (b > d))', 'not ((a > b) or (c))', '-((a + b) - (d - a))', '~((a & b) | (d ^ a))', '((a + b)) * d', '(((a - b))) - d', 'a - (((a + b) - (d - a)))']]
+	out += nested
 	quads = [('quad', f'a {o1} b {o2} d {o3} a {o4} b') for o1, o2, o3, o4 in itertools.product(ALLBIN, repeat=4)]
 	rnd = random.Random(seed)
 	out += paren + triples + mixed + rnd.sample(quads, 6000 if tier == 'thorough' else 300)
@@ -91,6 +99,8 @@ STATEMENT_TEMPLATES = [
 	'def {n}({h}) -> int:\n\tx = 0\n\tif a {1} 0:\n\t\tt = a {0} 1\n\t\tx = t\n\tt = 1\n\tfor i in range(3):\n\t\tt = i + a\n\t\tx += t\n\treturn x + t\n',
 	'def {n}({h}) -> int:\n\tx = a\n\twhile x {1} b and x < a + 3:\n\t\ty = x {0} 2\n\t\tx = x + 1\n\t\tif c:\n\t\t\tx = y\n\t\t\tbreak\n\treturn x\n',
 	'def {n}({h}) -> int:\n\tx = 0\n\tif c:\n\t\tx = a {0} b\n\telse:\n\t\tx = d\n\tif a {1} b:\n\t\tx = x + 1\n\treturn x\n',
+	'def {n}({h}) -> int:\n\tn = 0\n\twhile n < 3:\n\t\tb = n {0} a\n\t\tn += 1\n\tif a {1} 0:\n\t\ta = 0\n\treturn a * 10 + b\n',
+	'def {n}({h}) -> int:\n\tif a {1} d:\n\t\tb = a {0} d\n\tfor i in range(2):\n\t\td = i\n\treturn a + b + d\n',
 	# raise guarded by a condition
 	'def {n}({h}) -> int:\n\tif a {1} b:\n\t\traise Exception()\n\treturn a {0} d\n',
 	'def {n}({h}) -> int:\n\tx = a {0} b\n\tif not x {1} d or c:\n\t\traise Exception()\n\treturn x\n',
